@@ -861,8 +861,8 @@ func (v *Verifier) execLoop(fr *Frame, st *State, node ast.Node, pos token.Pos, 
 		h.assume(v.asBool(v.evalSpec(fr, h, cl.Expr), pos))
 	}
 	frameKeys := hkeys
-	if v.topFrame == nil || v.curCon == nil {
-		frameKeys = nil
+	if v.topFrame == nil || v.curCon == nil || (v.topFrame.fi != nil && v.topFrame.fi.RegionStmt != nil) {
+		frameKeys = nil // region contracts have no frame clause
 	}
 	for _, k := range frameKeys {
 		if f := v.heapFrameFormula(h, k); f != nil {
